@@ -176,3 +176,28 @@ fn c19_twin_must_fail() {
     core::mem::forget(o);
     assert!(false, "twin: reachability witness");
 }
+
+// ---------------------------------------------------------------------------------------------
+// C07: file header emitted by the serialiser
+// ---------------------------------------------------------------------------------------------
+/// metadata_as_bytes = "HPO" | 3 | year u16 BE | month | day, for every release version
+#[kani::proof]
+#[kani::stub(std::hash::RandomState::new, stub_random_state)]
+#[kani::unwind(10)]
+fn c07_file_header_encode() {
+    let mut o = empty_ontology_cap(2, 1);
+    let y: u16 = kani::any();
+    let m: u8 = kani::any();
+    let d: u8 = kani::any();
+    o.hpo_version = (y, m, d);
+    let out = o.metadata_as_bytes();
+    assert!(out.len() == 8);
+    assert!(out[0] == b'H' && out[1] == b'P' && out[2] == b'O' && out[3] == 3, "magic and current format version");
+    assert!(out[4] == (y >> 8) as u8 && out[5] == y as u8 && out[6] == m && out[7] == d, "release date");
+    // and the decoder's view of these 8 bytes
+    let b = parser::binary::ontology::version(&out).unwrap();
+    assert!(b.version() == BinaryVersion::V3 && b.len() == 4);
+    kani::cover!(y > 255, "two-byte year");
+    core::mem::forget(out);
+    core::mem::forget(o);
+}
